@@ -318,23 +318,44 @@ def run(rep):
             ms = [n for n in walk(fl["body"]) if n.get("k") == "Match" and call_is(peel(n["scrut"]), "Iterator::next")]
             if len(ms) == 1:
                 m = ms[0]
-                some_ne = none_false = some_ok = False
-                for a in m["arms"]:
-                    v = variant_of(a["pat"])
-                    body = peel(a["body"])
-                    isretfalse = body.get("k") == "Return" and lit(body.get("value")) == ("bool", False)
-                    if v == ("Option", "Some") and a.get("guard"):
-                        g = a["guard"]
-                        sub = strip_ref(subpat(a["pat"], 0))
-                        ids = {peel(g["lhs"]).get("id"), peel(g["rhs"]).get("id")} if g.get("k") == "Binary" else set()
-                        if g.get("k") == "Binary" and g["op"] == "Ne" and ids == {vid, sub.get("id")} and isretfalse:
-                            some_ne = True
-                    elif v == ("Option", "Some"):
-                        some_ok = not any(x.get("k") in ("Return", "Break") for x in walk(a["body"]))
-                    elif v == ("Option", "None"):
-                        none_false = isretfalse
-                ok = some_ne and none_false and some_ok
-                det = show(m)
+
+                def outcome(case):
+                    """first arm taken for next() = None / Some(c) with c == v / Some(c) with c != v -> 'false' | 'continue' | '?'"""
+                    for a in m["arms"]:
+                        for p in or_pats(a["pat"]):
+                            v = variant_of(p)
+                            if strip_ref(p).get("k") == "Wild":
+                                hit, cid = True, None
+                            elif v == ("Option", "None"):
+                                hit, cid = case == "none", None
+                            elif v == ("Option", "Some"):
+                                sub = strip_ref(subpat(p, 0))
+                                if sub.get("k") not in ("Bind", "Wild"):
+                                    return "?"
+                                hit, cid = case != "none", sub.get("id")
+                            else:
+                                return "?"
+                            if not hit:
+                                continue
+                            g = a.get("guard")
+                            if g is not None:
+                                g = peel(g)
+                                if case == "none" or g.get("k") != "Binary" or g["op"] not in ("Eq", "Ne") or {peel(g["lhs"]).get("id"), peel(g["rhs"]).get("id")} != {vid, cid}:
+                                    return "?"
+                                if (g["op"] == "Eq") != (case == "eq"):
+                                    continue
+                            body = peel(a["body"])
+                            if body.get("k") == "Block" and not body["stmts"] and body.get("expr"):
+                                body = peel(body["expr"])
+                            if body.get("k") == "Return" and lit(body.get("value")) == ("bool", False):
+                                return "false"
+                            if not any(x.get("k") in ("Return", "Break", "Continue") for x in walk(a["body"])):
+                                return "continue"
+                            return "?"
+                    return "?"
+                got = {c: outcome(c) for c in ("none", "eq", "ne")}
+                ok = got == {"none": "false", "eq": "continue", "ne": "false"}
+                det = str(got) + " " + show(m)
         rep.check(ok, "MATCH-AHEAD", "MATCH-AHEAD/loop", site, "for v in literal.chars(): next()==Some(c) with v != c => false; None => false; otherwise continue", det)
         rep.check(lit(b.get("expr")) == ("bool", True), "MATCH-AHEAD", "MATCH-AHEAD/true", site, "falls through to true", show(b.get("expr")) if b.get("expr") else "-")
     rep.floor("T-KEYWORD", 31)
